@@ -117,6 +117,16 @@ fn convert(entry: u32, input: &str, st: &Settings, ow: f32, oh: f32) -> String {
         2 => svgbob::to_svg_string_compressed(input),
         3 => svgbob::to_svg_with_settings(input, st),
         4 => svgbob::to_svg_with_override_size(input, st, ow, oh),
+        7 => {
+            // the two step public path: the endorsed fragments of the page, then the document built from them
+            let cb = svgbob::CellBuffer::from(input);
+            let (fragments, _rejects) = cb.get_fragment_spans();
+            let node: svgbob::Node<()> =
+                svgbob::CellBuffer::fragments_to_node(fragments, String::new(), st, ow, oh);
+            let mut buffer = String::new();
+            node.render(&mut buffer).expect("must render");
+            buffer
+        }
         6 => {
             // a CellBuffer that was converted once, then edited through its public map interface so that it
             // holds the cells of another document (input = first "\u{1e}" second), then converted again:
@@ -261,7 +271,7 @@ fn read_corpus(path: &str) -> Vec<(u32, String, String, String, f32)> {
 
 /// T threads, released together, each converts the whole corpus in its own order,
 /// the very first conversions race for the initialization of the lazy tables
-fn race(threads: usize, corpus_path: &str, out_path: &str) {
+fn race(threads: usize, corpus_path: &str, out_path: &str, reps: usize) {
     install_panic_hook();
     let corpus = Arc::new(read_corpus(corpus_path));
     let barrier = Arc::new(Barrier::new(threads));
@@ -283,6 +293,7 @@ fn race(threads: usize, corpus_path: &str, out_path: &str) {
                 let start = (t * 37) % n.max(1);
                 barrier.wait();
                 let mut results: Vec<(usize, u8, String)> = Vec::with_capacity(n);
+                let reps = reps.max(1);
                 for k in 0..n {
                     let i = (start + k * stride) % n;
                     let (entry, input, bg, fill, scale) = &corpus[i];
@@ -292,12 +303,25 @@ fn race(threads: usize, corpus_path: &str, out_path: &str) {
                         scale: *scale,
                         ..Settings::default()
                     };
-                    let res = panic::catch_unwind(|| convert(*entry, input, &st, 0.0, 0.0));
-                    match res {
-                        Ok(s) => results.push((i, 0, s)),
-                        Err(_) => {
-                            let msg = LAST_PANIC.with(|p| p.borrow().clone());
-                            results.push((i, 1, msg))
+                    // `reps` conversions of the same key in a row (a just converted input converted again)
+                    // only the first result of a key and those that differ from it are kept
+                    let mut first: Option<(u8, String)> = None;
+                    for _ in 0..reps {
+                        let res = panic::catch_unwind(|| convert(*entry, input, &st, 0.0, 0.0));
+                        let (status, body) = match res {
+                            Ok(s) => (0u8, s),
+                            Err(_) => (1u8, LAST_PANIC.with(|p| p.borrow().clone())),
+                        };
+                        match &first {
+                            None => {
+                                first = Some((status, body.clone()));
+                                results.push((i, status, body));
+                            }
+                            Some((fs, fb)) => {
+                                if *fs != status || *fb != body {
+                                    results.push((i, status, body));
+                                }
+                            }
                         }
                     }
                 }
@@ -414,7 +438,12 @@ fn main() {
     let args: Vec<String> = std::env::args().collect();
     match args.get(1).map(|s| s.as_str()) {
         Some("serve") => serve(args[2].parse().expect("fd")),
-        Some("race") => race(args[2].parse().expect("threads"), &args[3], &args[4]),
+        Some("race") => race(
+            args[2].parse().expect("threads"),
+            &args[3],
+            &args[4],
+            args.get(5).map(|r| r.parse().expect("reps")).unwrap_or(1),
+        ),
         Some("miri") => miri(),
         Some("info") => info(),
         _ => {
